@@ -22,7 +22,7 @@ RULE = (
     "(a) every key of the extension and file-name tables x {default, --multi-line, --single-line where the style supports it}; (b) every --style name x "
     "the same line modes on an unrecognised file; (c) Hypothesis: file type x --style x line mode x {none, --force-dot-license, --fallback-dot-license} x "
     "prefix x year options x template {default, prose, without contributors, pre-commented} x body {empty, code, comment lines in the same style, "
-    "shebang / first-line declaration, blank-line runs} free of REUSE tags x N in 2..4 runs.  Oracle: tree bytes identical after run 1 and every later "
+    "shebang / first-line declaration, blank-line runs} free of REUSE tags x {ordinary request, request that makes the header longer than 4 KiB} x {no merge, --merge-copyrights, with two statements of one holder, with a hand-written year range} x N in 2..4 runs.  Oracle: tree bytes identical after run 1 and every later "
     "run; every requested notice / licence / contributor line occurs once in the target file.  Non-trivial = not (python style, default options, empty "
     "body); distinct by case."
 )
@@ -57,7 +57,11 @@ def case(draw):
             "dot": draw(st.sampled_from([None, None, None, "force", "fallback"])),
             "template": draw(st.sampled_from([None, None, "prose", "nocontrib", "commented"])),
             "req": draw(AN.request()), "body": draw(st.sampled_from(["empty", "code", "comment", "shebang", "blanks", "shebang+comment", "no-final-newline"])),
-            "runs": draw(st.integers(2, 4)), "eol": draw(st.sampled_from(["\n", "\n", "\r\n", "\r"]))}
+            "runs": draw(st.integers(2, 4)), "eol": draw(st.sampled_from(["\n", "\n", "\r\n", "\r"])),
+            # a header of more than 4 KiB (the size of the window the linter reads): 60 more holders and 60 more contributors
+            "many": draw(st.integers(0, 7)) == 0,
+            # --merge-copyrights, sometimes with statements of one holder that differ in the year only, or a hand-written year range
+            "merge": draw(st.sampled_from([None, None, None, "plain", "same-holder", "year-range"]))}
 
 
 def check(ctx, c, walk=False):
@@ -76,6 +80,13 @@ def check(ctx, c, walk=False):
     if c["template"] == "nocontrib" and not (c["req"]["holders"] or c["req"]["licences"]):
         ctx.excluded["template-renders-nothing-of-the-request"] += 1
         return
+    if c.get("many"):
+        c = dict(c, req=dict(c["req"], holders=c["req"]["holders"] + [f"Holder Number {i:02d} of the Long List" for i in range(60)],
+                             contributors=c["req"]["contributors"] + [f"Contributor {i:02d} <c{i:02d}@example.org>" for i in range(60)]))
+    if c.get("merge") == "same-holder":
+        c = dict(c, req=dict(c["req"], holders=c["req"]["holders"] + ["Copyright 2019 Merged Holder", "Copyright 2021 Merged Holder"]))
+    elif c.get("merge") == "year-range":
+        c = dict(c, req=dict(c["req"], years=["2018-2020"], exclude_year=False, holders=c["req"]["holders"] or ["Jane Doe"]))
     body_style = used_style if used_style else "python"
     body = {"empty": "", "code": "first line of code\n\nsecond\n", "blanks": "\n\n\ncode after blanks\n\n\n",
             "comment": same_style_comment(body_style) + "code\n",
@@ -98,6 +109,8 @@ def check(ctx, c, walk=False):
             args.append(f"--{c['line']}-line")
         if c["dot"]:
             args.append({"force": "--force-dot-license", "fallback": "--fallback-dot-license"}[c["dot"]])
+        if c.get("merge"):
+            args.append("--merge-copyrights")
         tname = None
         if c["template"] == "commented":
             if used_style and used_style not in ("jinja", "handlebars") and not to_dot:
@@ -119,7 +132,7 @@ def check(ctx, c, walk=False):
         ok = all(r.code == 0 and "Successfully changed header" in r.out for r in outcomes)
         ctx.count(c, nontrivial=ok and not (used_style == "python" and not c["line"] and not c["dot"] and not tname and c["body"] == "empty"),
                   labels=(["table-walk"] if walk else []) + [f"style:{used_style}", f"line:{c['line']}", f"dot:{c['dot']}", f"template:{tname}", f"body:{c['body']}",
-                                                             f"eol:{c['eol']!r}", f"runs:{c['runs']}", f"ok:{ok}"],
+                                                             f"eol:{c['eol']!r}", f"runs:{c['runs']}", f"ok:{ok}", f"header>4KiB:{bool(c.get('many'))}", f"merge:{c.get('merge')}"],
                   sample={"name": name, "args": args, "body": c["body"], "runs": c["runs"]})
         if outcomes[0].code != 0 or "Successfully changed header" not in outcomes[0].out:
             if walk and fstyle is not None and not c["line"]:
@@ -138,6 +151,8 @@ def check(ctx, c, walk=False):
         text = data.decode("utf-8", "replace") if isinstance(data, bytes) else ""
         req = c["req"]
         wanted = list(AN.requested_notices(dict(req, years=req["years"] or ([] if req["exclude_year"] else ["2021"]))))
+        if c.get("merge"):
+            wanted = []  # merged notices are re-rendered (C09 / C20 say how); here only the bytes matter
         wanted += [f"SPDX-FileContributor: {x}" for x in req["contributors"]] if tname != "nocontrib" else []
         for w in wanted:
             # count whole-line occurrences (a shorter notice may be a prefix of a longer one)
